@@ -115,7 +115,8 @@ def r3(ctx):
     I = Interp(idx, Config(stubs=st))
 
     def body(run):
-        d = I.call(run, Cls("_dispatcher:Dispatcher"), [new_obj(run, None, "app"), C(10)], {}, None)
+        # the run is still wanted (keep_running true); the case of close() arriving during the wait is R-C15-8
+        d = I.call(run, Cls("_dispatcher:Dispatcher"), [new_obj(run, None, "app", keep_running=TRUE), C(10)], {}, None)
         return I.call(run, I.getattr(run, d, "reconnect", None), [Sym("seconds"), Sym("reconnector", "func")], {}, None)
 
     for o in ctx.count_paths(I.explore(body)):
@@ -239,3 +240,30 @@ def r6(ctx):
 def r7(ctx):
     from .c13 import r3 as open_first
     open_first(ctx)
+
+
+@rule("R-C15-8", min_instances=1, title="close() during the reconnect wait ends the run: no further connection attempt after the application's own close(), also when it arrives while the loop sleeps out the interval")
+def r8(ctx):
+    from .c14 import run_forever_paths, _scenario
+    I, outs = run_forever_paths(ctx, reconnect=5, close_during_sleep=True)
+    loc = ctx.index.loc(ctx.index.func("_dispatcher:DispatcherBase.reconnect").node)
+    n = 0
+    bad = None
+    for o in outs:
+        names = [e.name for e in o.effects]
+        if "--other thread: app.close()" not in names:
+            continue
+        n += 1
+        k = names.index("--other thread: app.close()")
+        after = names[k + 1:]
+        if "WebSocket()" in after or "appsock.connect" in after:
+            bad = bad or o
+    if n == 0:
+        raise AnalysisError("no run in which close() arrives during the reconnect wait")
+    ctx.ob(f"{RF}:close()-during-reconnect-wait", bad is None, f"{n} runs: after close() during the wait no new connection is made" if bad is None else
+           "the application's close() arrives while the loop sleeps out the reconnect interval; after the sleep a new WebSocket is built and connected anyway "
+           f"(effects after close(): {[x for x in names[names.index('--other thread: app.close()') + 1:] if not x.startswith('store:')][:8]})" if False else
+           "the application's close() arrives while the loop sleeps out the reconnect interval, and after the sleep a new connection is attempted anyway "
+           f"({[x for x in [e.name for e in bad.effects][[e.name for e in bad.effects].index('--other thread: app.close()') + 1:] if x in ('WebSocket()', 'appsock.connect', 'on_reconnect', 'on_open', 'on_close')]})",
+           loc, {"path": path_text(bad, 12)} if bad else None)
+
